@@ -415,9 +415,9 @@ PROPS["C06"] = {
 
 PROPS["C20"] = {
     "level": "fault_enumeration",
-    "runs": [run("TestC20Early", (3000, 6), (60000, 8)), run("TestC20Faults", (3, 3), (12, 8), shrinktime="1s")],
+    "runs": [run("TestC20Early", (3000, 6), (60000, 8)), run("TestC20Faults", (3, 4), (12, 8), shrinktime="1s")],
     "cap_s": {"quick": 900, "thorough": 7200},
-    "rule": "scenarios = body none / in memory / spilled to disk / larger than a small body limit and written in pieces (one of them ending "
+    "rule": "scenarios = body none / in memory / spilled to disk (written in two pieces or in one, so that the spill file is created while the buffer is empty) / larger than a small body limit and written in pieces (one of them ending "
             "exactly at the limit in half of the cases; Reject and ProcessPartial; the excess must show as an interruption, an error "
             "variable or a log entry) / multipart with 0..3 uploads x SecUploadKeepFiles Off|On|RelevantOnly x audit "
             "Off|Serial|Concurrent x deny in phase 0-4 x logging rule x response body; (a) early termination: the API script is stopped "
@@ -431,7 +431,8 @@ PROPS["C20"] = {
             "failing unlink), file descriptors back to the baseline, a following transaction on the same WAF behaves normally; "
             "non-trivial = at least one aligned injection (faults) / a scenario with files stopped at or after the third call (early)",
     "essential": {"all": ["body:spill", "body:multipart", "uploads", "keep:On", "keep:RelevantOnly", "interrupted", "body-over-limit:Reject",
-                          "body-over-limit:ProcessPartial", "write-ends-exactly-at-limit", "core-scenario", "fault:unlinkat", "fault:openat", "fault:write", "multipart-without-announced-boundary"]},
+                          "body-over-limit:ProcessPartial", "write-ends-exactly-at-limit", "core-scenario", "fault:unlinkat", "fault:openat", "fault:write", "multipart-without-announced-boundary",
+                          "spill-file-created-for-the-first-write"]},
     "assumptions": COMMON_ASSUME + [
         "strace -e inject counts 'when=N' per traced thread; misaligned runs are detected after the fact and discarded (counted in coverage.extra)",
         "faults on the writability probe files (checkfsfile*) NewWAF creates are out of scope; a failed read at end of file is not a fault (no data)",
